@@ -127,6 +127,15 @@ def model (name : String) (ts : Toks) : String :=
         let m := match main with | some r => showPath r | none => "dropped"
         s!"{m} | {String.intercalate " ; " (news.map showPath)}"
     | _ => "parse-error"
+  | "offopen", jt :: joined :: dbits :: mbits :: rest =>
+    -- raw rings of one open path: Joined (two rings) or capped (one ring; the caps are never built)
+    match takePath rest with
+    | some (p, []) =>
+      let f (n : Int) : Float := Float.ofBits (UInt64.ofNat n.toNat)
+      let cfg : Model.OffCfg := { groupDelta := f dbits, joinType := jt.toNat, mitLimSqr := Model.mitLimSqrOf (f mbits) }
+      if joined != 0 then String.intercalate " ; " ((Model.offsetOpenJoined cfg (toP64 p).toArray).map showPath)
+      else showPath (Model.offsetOpenPath cfg (toP64 p).toArray)
+    | _ => "parse-error"
   | "contain", rest =>
     match takePath rest with
     | some (p1, rest) => match takePath rest with
